@@ -1437,6 +1437,102 @@ let lv_cmd (args : string list) : string =
   | ["show"] -> lv_show_state !lv_model
   | _ -> "bad-command"
 
+(* ---------- CR: checkpoint / restore machine (Lsm/Checkpoint.v with the restore step list GENERATED from
+   Tree::restore_from_checkpoint); keys and values are interned: the machine only compares them ---------- *)
+let cr_state = ref cki_init
+let cr_bsz = ref (nat_of_int 2)
+let cr_keys : (string, int) Hashtbl.t = Hashtbl.create 64
+let cr_vals : (string, int) Hashtbl.t = Hashtbl.create 64
+let cr_val_names : (int, string) Hashtbl.t = Hashtbl.create 64
+let cr_key (hex : string) : n =
+  match Hashtbl.find_opt cr_keys hex with
+  | Some i -> n_of_int i
+  | None -> let i = Hashtbl.length cr_keys + 1 in Hashtbl.replace cr_keys hex i; n_of_int i
+let cr_show_tok (tok : string) : string =
+  let v = bytes_of_tok tok in
+  if List.length v > 16 then Printf.sprintf "#%d/%s" (List.length v) (fnv v) else hex_of_bytes v
+let cr_val (shown : string) : n =
+  match Hashtbl.find_opt cr_vals shown with
+  | Some i -> n_of_int i
+  | None -> let i = Hashtbl.length cr_vals + 1 in Hashtbl.replace cr_vals shown i; Hashtbl.replace cr_val_names i shown; n_of_int i
+let cr_val_name (v : n) : string = match Hashtbl.find_opt cr_val_names (int_of_n v) with Some s -> s | None -> "?"
+let cr_do (o : kop) : kout = let (s, r) = cki_step !cr_bsz !cr_state o in cr_state := s; r
+let cr_show_out = function
+  | XDone -> "ok" | XBad -> "bad" | XSeq q -> "seq:" ^ dec_of_n q | XConflict -> "conflict" | XRetry -> "retry"
+  | XTable t -> "table:" ^ dec_of_n t | XNone -> "none"
+  | XVal None -> "val:none" | XVal (Some v) -> "val:" ^ cr_val_name v
+let cr_sorted_keys () : (string * int) list =
+  List.sort compare (Hashtbl.fold (fun k i acc -> (k, i) :: acc) cr_keys [])
+let cr_scan (s : kstate) (snap : n) : string =
+  "list:" ^ String.concat "," (List.filter_map (fun (hex, i) ->
+      match kread s snap (n_of_int i) with Some v -> Some (hex ^ "=" ^ cr_val_name v) | None -> None) (cr_sorted_keys ()))
+let cr_key_name (k : n) : string =
+  let i = int_of_n k in
+  match Hashtbl.fold (fun hex j acc -> if j = i then Some hex else acc) cr_keys None with Some h -> h | None -> "?"
+let cr_flush_loop () : string list =
+  let rec go acc = match cr_do OpFlushOldest with XTable t -> go (dec_of_n t :: acc) | _ -> List.rev acc in go []
+let cr_txs : (string, n) Hashtbl.t = Hashtbl.create 16     (* transaction id -> its snapshot (visible seq at begin) *)
+let cr_batch (batch : string) : (n * n option) list =
+  List.map (fun e ->
+      match String.index_opt e '=' with
+      | Some i ->
+        let k = String.sub e 0 i and v = String.sub e (i + 1) (String.length e - i - 1) in
+        (cr_key k, if v = "!" then None else Some (cr_val (cr_show_tok v)))
+      | None -> failwith "bad batch entry") (String.split_on_char ',' batch)
+let cr_cmd (args : string list) : string =
+  match args with
+  | ["new"; bsz] ->
+    cr_state := cki_init; cr_bsz := nat_of_int (int_of_string bsz);
+    Hashtbl.reset cr_keys; Hashtbl.reset cr_vals; Hashtbl.reset cr_val_names; Hashtbl.reset cr_txs; "ok"
+  | ["begin"; id] -> Hashtbl.replace cr_txs id !cr_state.s_sq.q_visible; "ok"
+  | ["end"; id] -> Hashtbl.remove cr_txs id; "ok"
+  | ["commitx"; id; batch] ->
+    (match Hashtbl.find_opt cr_txs id with
+     | None -> "notx"
+     | Some start -> cr_show_out (cr_do (OpCommit (start, cr_batch batch))))
+  | ["readx"; id; k] ->
+    (match Hashtbl.find_opt cr_txs id with
+     | None -> "notx"
+     | Some snap -> cr_show_out (cr_do (OpRead (snap, cr_key k))))
+  | ["scanx"; id] ->
+    (match Hashtbl.find_opt cr_txs id with None -> "notx" | Some snap -> cr_scan !cr_state snap)
+  | ["params"] -> if ckpt_params_ok then "ok" else "params-mismatch"
+  | ["vis"] -> "vis:" ^ dec_of_n !cr_state.s_sq.q_visible
+  | ["commit"; start; batch] -> cr_show_out (cr_do (OpCommit (big_of_string start, cr_batch batch)))
+  | ["rotate"] -> cr_show_out (cr_do OpRotate)
+  | ["flush1"] -> cr_show_out (cr_do OpFlushOldest)
+  | ["flush"] -> ignore (cr_do OpRotate); "tables:" ^ String.concat "," (cr_flush_loop ())
+  | ["compact"; ins; keep] ->
+    let ins = if ins = "-" then [] else List.map big_of_string (String.split_on_char ',' ins) in
+    let keep = if keep = "-" then [] else List.map (fun e ->
+        match String.split_on_char '@' e with
+        | [k; q] -> (cr_key k, big_of_string q) | _ -> failwith "bad keep entry") (String.split_on_char ',' keep) in
+    cr_show_out (cr_do (OpCompact (ins, keep)))
+  | ["fillall"] -> cr_state := cki_fill_all !cr_bsz !cr_state; "ok"
+  | ["read"; snap; k] -> cr_show_out (cr_do (OpRead (big_of_string snap, cr_key k)))
+  | ["scan"; snap] -> cr_scan !cr_state (big_of_string snap)
+  | ["reopen"; keep] -> Hashtbl.reset cr_txs; cr_show_out (cr_do (OpReopen (keep = "1")))
+  | ["checkpoint"; c] ->
+    (* create_checkpoint = flush everything, then copy: the flushes are made visible step by step (their table ids) *)
+    ignore (cr_do OpRotate);
+    let ids = cr_flush_loop () in
+    ignore (cr_do (OpCheckpoint (big_of_string c))); "tables:" ^ String.concat "," ids
+  | ["restore"; c] -> Hashtbl.reset cr_txs; cr_show_out (cr_do (OpRestore (big_of_string c)))
+  | ["ckptscan"; c] ->
+    (match aget (big_of_string c) !cr_state.s_ckpts with
+     | None -> "bad"
+     | Some ck -> let o = cki_open_ckpt ck !cr_state.s_ckpts in cr_scan o o.s_sq.q_visible)
+  | ["tables"] ->
+    let s = !cr_state in
+    let show_ver (x : cver) = Printf.sprintf "%s@%s=%s" (cr_key_name x.cv_key) (dec_of_n x.cv_seq)
+        (match x.cv_val with None -> "!" | Some v -> cr_val_name v) in
+    let tabs = List.sort (fun (a, _) (b, _) -> compare (int_of_n a) (int_of_n b)) s.s_mem.m_man.mf_tables in
+    Printf.sprintf "tabs:vis=%s;next=%s;tables=%s" (dec_of_n s.s_sq.q_visible) (dec_of_n s.s_mem.m_man.mf_next)
+      (String.concat "|" (List.map (fun h ->
+           Printf.sprintf "%s[%s]" (dec_of_n (fst h))
+             (String.concat "," (List.sort compare (List.map show_ver (tables_vers [] s.s_disk.d_tables [h]))))) tabs))
+  | _ -> "bad-command"
+
 let () =
   try
     while true do
@@ -1462,6 +1558,7 @@ let () =
             | "vp" :: rest -> vp_cmd rest
             | "vl" :: rest -> vl_cmd rest
             | "lv" :: rest -> lv_cmd rest
+            | "cr" :: rest -> cr_cmd rest
             | _ -> "bad-command"
           with
           | Not_found -> "error:not-found"
